@@ -208,6 +208,12 @@ def getitem(it, obj, idx):
 
 def getslice(it, obj, lo, hi):
     c = it.c
+    if isinstance(obj, str) and (lo is None or isinstance(lo, int)) and (hi is None or isinstance(hi, int)):
+        return obj[lo:hi]
+    if isinstance(obj, SRef) and obj.pytype == 'str':
+        r = c.fresh_ref('substr', 'str', distinct=False)       # a piece of text: not interpreted
+        c.assume(r.e != NONE)
+        return r
     if isinstance(obj, SRef) and base_type(obj.pytype) == 'list' and lo in (None, 0) and hi is not None:
         # lst[0:k]: the first min(k, len) elements
         n, items = seq_len(it, obj), seq_items(it, obj)
